@@ -124,6 +124,53 @@ def correspondence(ctx, md, docs):
     ctx.cov["disagreements"] = bad
 
 
+def read_part(ctx):
+    """Markdown.read(): the same text stored with LF / CRLF / CR line ends, in several encodings, small and larger than 64 KiB
+    (every alignment of a line end against a 64 KiB boundary), must convert like the LF text given as a string."""
+    import mistune, tempfile, shutil, os
+    n = 0
+    tmp = tempfile.mkdtemp(prefix="verif-c16-")
+    md = mistune.create_markdown(plugins=["table", "footnotes"])
+    try:
+        small = ["para line one\nline two\n\n- a\n- b\n\n```\ncode\n\nmore\n```\n\n| h |\n|---|\n| c |\n", "# T\n\ntext[^1]\n\n[^1]: note\n   cont\n", "a\nb", "caf\u00e9 \u00fcber\n\n> q\n> r\n"]
+        cases = []
+        for d in small:
+            for enc_ in ("utf-8", "utf-16", "utf-16-le", "utf-16-be", "utf-32", "latin-1"):
+                cases.append((d, enc_, 0))
+        line = "abcdefghijkl"          # 12 characters + line end
+        big = ("# heading\n\n" + (line + "\n") * 5200 + "\nend\n")      # > 64 KiB with CRLF
+        for pad in range(0, 15):
+            cases.append(("x" * pad + "\n\n" + big, "utf-8", pad))
+        big2 = "# h\n\n" + ("\u65e5\u672c\u8a9e " * 6 + "\n") * 2800 + "\nend\n"      # multi-byte characters across the boundary
+        for pad in range(0, 4):
+            cases.append(("y" * pad + "\n\n" + big2, "utf-8", pad))
+        for d, enc_, pad in cases:
+            try:
+                want = md(d)
+            except Exception:
+                continue
+            for kind, e in (("lf", "\n"), ("crlf", "\r\n"), ("cr", "\r")):
+                try:
+                    data = d.replace("\n", e).encode(enc_)
+                except UnicodeEncodeError:
+                    continue
+                pth = os.path.join(tmp, "f.md")
+                with open(pth, "wb") as f:
+                    f.write(data)
+                n += 1
+                try:
+                    got = md.read(pth, encoding=enc_)[0]
+                except Exception as ex:
+                    got = "EXC %s" % type(ex).__name__
+                if got != want:
+                    ctx.fail("read-line-ending-%s:%s" % (kind, enc_ if len(d) < 1000 else "large-file"), "Markdown.read() of a %d-byte %s file with %s line ends (pad %d) differs from converting the LF text" % (len(data), enc_, kind.upper(), pad),
+                             {"config": "read", "s": d if len(d) < 2000 else d[:200] + "…", "variant": kind, "kind": kind, "encoding": enc_, "bytes": len(data), "pad": pad})
+                    break
+    finally:
+        shutil.rmtree(tmp, ignore_errors=True)
+    return n
+
+
 def run(ctx):
     import mistune
     ctx.broken += common.proof_stage(ctx, THEOREMS)
@@ -133,6 +180,7 @@ def run(ctx):
     docs = documents(ctx)
     correspondence(ctx, mds["ast-core"], docs)
     n = oracle(ctx, mds, docs)
+    n += read_part(ctx)
     if ctx.broken and not ctx.failures:
         ctx.notes.append("search mode entered")
         n += oracle(ctx, mds, documents(ctx, big=True), per_doc_cfgs=4)
